@@ -27,6 +27,9 @@ Stmts(mn) ==
   \cup {[S0 EXCEPT !.mn = mn, !.form = "idx", !.reg = r, !.sub = "acc", !.acc = a, !.ind = n] : r \in IdxRegs, a \in {"A","B","D"}, n \in (IF mn \in StackOps \cup PairOps THEN {TRUE} ELSE BOOLEAN)}
   \cup {[S0 EXCEPT !.mn = mn, !.form = "idx", !.reg = r, !.sub = "off", !.ind = n, !.expr = E1(N(x[1], x[2]))] : r \in IdxRegs, n \in BOOLEAN, x \in {<<v, sp>> \in Vals \X {"dec","hex","hex2","hex4","bin8","bin16","char"} : sp \in Sps(v)}}
   \cup {[S0 EXCEPT !.mn = mn, !.form = "pcr", !.ind = n, !.expr = E1(N(x[1], x[2]))] : n \in BOOLEAN, x \in {<<v, sp>> \in Vals \X {"dec","hex","hex2","hex4","bin8","bin16","char"} : sp \in Sps(v)}}
+  \cup (IF mn \in {"LDA", "LEAX", "STX", "JMP", "CMPY", "NEG"}
+        THEN {[S0 EXCEPT !.mn = mn, !.form = "idx", !.reg = r, !.sub = s, !.ind = n, !.expr = E1(N(5, "dec"))] :
+                 r \in {"Z", "PC", "W", "A", "DP", "x"}, s \in {"zero", "off", "inc1", "dec2", "acc"}, n \in BOOLEAN} ELSE {})
   \cup (IF mn \in StackOps \/ mn \in {"NOP", "BRA"} THEN {[S0 EXCEPT !.mn = mn, !.form = "regs", !.regs = SetToSeq(rs)] : rs \in RegLists \ {{}}} ELSE {})
   \cup (IF mn \in PairOps \/ mn \in {"NOP", "LBRA"} THEN {[S0 EXCEPT !.mn = mn, !.form = "pair", !.r1 = a, !.r2 = b] : a \in Regs, b \in Regs} ELSE {})
 Ctx == [addr |-> 1, dp |-> 0]
